@@ -460,7 +460,12 @@ void vf::run_case(Src &s, Ctx &c)
         c.failOrKnown("C17/" + v.key + rkey, vf::fmt("%s (%s, %s): output %s (routine returned %s)", rn[routine], shapeName[shape], objN[objKind], v.msg.c_str(), ret ? "true" : "false"));
     const double len1 = out.length();
     if (lengthMonotone && P->ps.space->isMetricSpace())
-        VCHECK(c, len1 <= len0 * (1 + 1e-9) + 1e-9, "C17/longer" + rkey, "%s returned a longer path: %.9g -> %.9g", rn[routine], len0, len1);
+    {
+        // SE(3): the SO(3) distance is quantised at 4.5e-5 (DESIGN section 3), so the triangle inequality - which is what makes a shortcut
+        // shorter - only holds up to one grain per distance evaluation involved
+        const double grain = P->ps.kind == SP_SE3 ? 4.5e-5 * (double)(n0 + out.getStateCount()) : 0;
+        VCHECK(c, len1 <= len0 * (1 + 1e-9) + 1e-9 + grain, "C17/longer" + rkey, "%s returned a longer path: %.9g -> %.9g", rn[routine], len0, len1);
+    }
     if (costMonotone)
     {
         double dense1 = denseCost(out);
@@ -469,6 +474,20 @@ void vf::run_case(Src &s, Ctx &c)
         double tol = objKind == 2 ? P->r() : 2e-3 * (1 + std::fabs(dense0));
         c.stat(std::string("cost-change(rel):") + objN[objKind], objKind == 2 ? (dense0 - dense1) / (1 + std::fabs(dense0)) : (dense1 - dense0) / (1 + std::fabs(dense0)));
         bool worse = objKind == 2 ? dense1 < dense0 - tol : dense1 > dense0 + tol;
+        // The routine decides with the objective's own motion cost, a quadrature at the validity resolution; at a coarse resolution that differs
+        // from the fine grid by more than any fixed tolerance (seen at 10x the quick case count: findBetterGoal, resolution 0.56, ridge of width
+        // 0.3: +0.4 % on the fine grid, an improvement in the library's own terms). "Worse under its own objective" is therefore only asserted
+        // when the path is worse under both evaluations - the library's and the discretisation-independent one.
+        if (worse && objKind != 0)
+        {
+            const ob::Cost cost1 = out.cost(obj);
+            const bool libWorse = obj->isCostBetterThan(cost0, cost1) && std::fabs(cost1.value() - cost0.value()) > 1e-9 * (1 + std::fabs(cost0.value()));
+            if (!libWorse)
+            {
+                worse = false;
+                c.count("cost:worse-on-fine-grid-only(quadrature)");
+            }
+        }
         if (worse)
             c.failOrKnown("C17/cost-worse" + rkey + "(" + objN[objKind] + ")", vf::fmt("%s made the path worse under its own objective (%s, evaluated on a uniform grid of r/4): %.9g -> %.9g",
                                                                                        rn[routine], objN[objKind], dense0, dense1));
